@@ -13,7 +13,7 @@ from fractions import Fraction
 import numpy as np
 
 from ..run import Task
-from . import common, c05_grid
+from . import common, c05_grid, c05_sdmx
 from ..llsym import bridge
 from ..llsym.interp import Interp, Obj, Ptr, REAL
 from ..llsym.ccall import ccall, STATS
@@ -389,6 +389,9 @@ def tasks(tier):
            Task("translator_validation", c_translator_validation, dict(seed=0), engine="custom")]
     if tier == "thorough":
         out.append(Task("angc_ylm/3rad", h_angc_ylm, dict(nrad=2, nw=(3, 4), nlm=9, nalpha=3, stride=5, offset=2)))
+    out += [Task("sdmx/ao_to_bas_l1", c05_sdmx.h_l1, {}), Task("sdmx/ao_to_bas_grid", c05_sdmx.h_grid, {}), Task("sdmx/shl_to_alpha_l1", c05_sdmx.h_shl_alpha, {})]
+    if tier == "thorough":
+        out += [Task("sdmx/ao_to_bas_l1/ng3", c05_sdmx.h_l1, dict(ng=3)), Task("sdmx/shl_to_alpha_l1/3x4", c05_sdmx.h_shl_alpha, dict(ng=3, nalpha=3, nsh=4))]
     return out + _grid_tasks(tier)
 
 
@@ -421,7 +424,7 @@ def replay(task, rec):
 def extra_evidence(results):
     from ..llsym import ir
     return dict(ir_sources_sha256={k.replace("/repo/", ""): v for k, v in ir.EMITTED.items()}, translator_validation=[dict(function=n, max_deviation=d) for n, d in VALIDATION],
-                pairs_not_covered=["add_lp1_term_onsite_fwd/bwd (not called by any wrapper)", "SDMXcontract_ao_to_bas*", "contract_shl_to_alpha_l1(_bwd)", "SDMX plan get_features/get_vxc",
+                pairs_not_covered=["add_lp1_term_onsite_fwd/bwd (not called by any wrapper)", "SDMX generator get_features/get_vxc at the Python level (libcint AO evaluation underneath)",
                                    "LCAOInterpolator.project_orb2grid_grad (nuclear-gradient path)"])
 
 
@@ -436,7 +439,9 @@ META = dict(
                "with conv2spline, spline2conv, interpolate_fwd/bwd, _interpolate_nopar_atom, _call_l1_fill, _run_onsite_orb2grid, _run_onsite_lp1 as written; "
                "ciderpress/dft/lcao_convolutions.py: ATCBasis.convert_rad2orb_; ciderpress/dft/grids_indexer.py: AtomicGridsIndexer.reduce_angc_ylm_, empty_rlmq",
                "ciderpress/lib/mod_cider/conv_interpolation.c (behind those wrappers): compute_mol_convs_single_new, compute_pot_convs_single_new, add_lp1_term_fwd/bwd, add_lp1_onsite_new_fwd/bwd, "
-               "project_conv_to_spline, project_spline_to_conv, fill_l1_coeff_fwd/bwd"],
+               "project_conv_to_spline, project_spline_to_conv, fill_l1_coeff_fwd/bwd",
+               "ciderpress/lib/mod_cider/fast_sdmx.c: SDMXcontract_ao_to_bas_l1 / _l1_bwd, SDMXcontract_ao_to_bas_grid / _grid_bwd, contract_shl_to_alpha_l1 / _bwd "
+               "(all floating-point arguments symbolic; forward cells against their documented sums; SDMXcontract_ao_to_bas / _bwd is in C02)"],
     bounds=dict(grid_link="2 atoms, lmax 1, (n0,n1) in {(1,1),(2,0)} quick + {(2,2),(1,2)} thorough, 6 spline shells, 5 free points / a hand-made atomic grid of 4 radial shells and 8 points "
                       "(pruned to 7, permuted, padding 0-2); coordinates, spline tables and the grid ordering are concrete",
             atoms=2, lmax=1, nalpha=2, radial_shells="2-5", angular_points="2-4 per shell", strides="stride > nalpha with offset 0/1", coef_order="gq, qg", threads="serial semantics (C10 covers threading)"),
